@@ -102,14 +102,23 @@ def run(ck):
     streams["nesting"] = nestings()
     streams["wide_tokens"] = wide_tokens(ck.tier == "quick")
     worst = {"impl": 0.0, "model": 0.0}
+    # (a text is parsed in milliseconds: the limit only has to tell a busy machine from a parser that does not return)
+    tmo = 90 if ck.tier == "quick" else 600
+    nhang = 0
     for name, texts in streams.items():
         if not texts:
             continue
+        if nhang >= 3:      # the parser does not return on several inputs already: no need to wait for more of them
+            break
         big = name.startswith("corpus")
-        a, b = core.compare(ck, name, texts, lambda t: "%s %s" % ("parseh" if big else "parse", hexs(t)), timeout=600)
-        st = core.impl(["steps %s" % hexs(t) for t in texts], tag="st" + name, timeout=600)
-        ms = core.model(["steps %s" % hexs(t) for t in texts], tag="ms" + name, timeout=600)
-        orc = core.impl(["oracle01 %s" % hexs(t) for t in texts], tag="or" + name, timeout=600)
+        a, b = core.compare(ck, name, texts, lambda t: "%s %s" % ("parseh" if big else "parse", hexs(t)), timeout=tmo)
+        if any(str(x).startswith("HANG") for x in a):
+            nhang += sum(1 for x in a if str(x).startswith("HANG"))
+            st = ms = orc = ["SKIPPED"] * len(texts)
+        else:
+            st = core.impl(["steps %s" % hexs(t) for t in texts], tag="st" + name, timeout=tmo)
+            ms = core.model(["steps %s" % hexs(t) for t in texts], tag="ms" + name, timeout=tmo)
+            orc = core.impl(["oracle01 %s" % hexs(t) for t in texts], tag="or" + name, timeout=tmo)
         nontriv = set()
         for t, ra, rs, rm, ro in zip(texts, a, st, ms, orc):
             if t:
@@ -130,7 +139,7 @@ def run(ck):
             m = re.match(r"steps=(\d+) ntok=(\d+)", rm)
             if m:
                 worst["model"] = max(worst["model"], int(m.group(1)) / (int(m.group(2)) + 1))
-            elif not (rm.startswith("PANIC") and ra.startswith("PANIC")):
+            elif rm != "SKIPPED" and not (rm.startswith("PANIC") and ra.startswith("PANIC")):
                 ck.broke("correspondence", {"stream": name + ":model-steps", "case": t[:300], "model": rm[:200]})
             if "empty-message" in ro or "bad-error-range" in ro:
                 ck.fail(["C02", "error-shape", sig_t], "syntax error with empty message or range outside the text: %s" % ro[:100],
